@@ -111,7 +111,7 @@ theorem Tr.of_shrink {s s' : State} {calls : List Call} (hm : MInv s) (hf : Same
     (haf : ∀ e ∈ s'.activeFormatting, e ∈ s.activeFormatting) :
     Tr s s' calls (fun x x' => x' = x ∧
       absF s' x = ((absF s x).setStack (absStack s.dom s'.openElems)).setList (absListE s'.activeFormatting)) := by
-  refine ⟨hm.of_shrink hf he.ext ho hhead haf, cfgOf_of_sameButSL hm hf he.ext, he.ext, [], fun x rest hx hs =>
+  refine ⟨hm.of_shrink hf he.ext ho hhead haf, cfgOf_of_sameButSL hm hf he.ext, he.ext, [], FreshIds.nil _, fun x rest hx hs =>
     ⟨x, ⟨⟨hx.live, ?_, fun a ha => isElement_ext he.ext (hx.annotEl a ha), hx.xlog⟩, by simpa using hs, rfl, rfl, rfl,
       [], by simp, fun _ _ => ?_⟩, rfl, absF_of_sameButSL hm hx hf he.ext ho⟩⟩
   · intro h hh hn
@@ -546,8 +546,8 @@ theorem Tr.withErrors {s s' : State} {calls : List Call} {F H : SState → SStat
     (hH : ∀ σ, H σ = { F σ with errors := (H σ).errors })
     (h : Tr s s' calls (fun x x' => x' = x ∧ absF s' x = F (absF s x))) :
     Tr s s' calls (fun x x' => x' = { x with errors := (H (absF s x)).errors } ∧ absF s' x' = H (absF s x)) := by
-  obtain ⟨hm, hc, he, ids, f⟩ := h
-  refine ⟨hm, hc, he, ids, fun x rest hx hs => ?_⟩
+  obtain ⟨hm, hc, he, ids, hfi, f⟩ := h
+  refine ⟨hm, hc, he, ids, hfi, fun x rest hx hs => ?_⟩
   obtain ⟨x', l, hxx, e⟩ := f x rest hx hs
   subst x'
   refine ⟨{ x with errors := (H (absF s x)).errors },
@@ -1048,7 +1048,7 @@ theorem pc_push {s : State} (hm : MInv s) (h : Id) (hel : s.dom.isElement h = tr
       rcases List.mem_append.mp hy with hy | hy
       · exact hm.ip y hy
       · rw [List.mem_singleton.mp hy]; exact hip
-  refine ⟨hm', rfl, TBSafe.Ext.refl _, [], fun x rest hx hs =>
+  refine ⟨hm', rfl, TBSafe.Ext.refl _, [], FreshIds.nil _, fun x rest hx hs =>
     ⟨x, ⟨⟨hx.live, ?_, hx.annotEl, hx.xlog⟩, by simpa using hs, rfl, rfl, rfl, [], by simp, fun _ _ => rfl⟩, rfl, ?_⟩⟩
   · intro y hy hn
     rcases List.mem_append.mp hy with hy | hy
